@@ -600,9 +600,22 @@ def refresh_max_bytes(rng: random.Random, main: G.Schema) -> None:
                 m.options = [(on, ((G.msg_nbits(m) + 7) // 8 + rng.randint(0, 3)) if on == "max_bytes" else ov) for (on, ov) in opts]
 
 
+def unique_import_names(main: G.Schema) -> None:
+    """ProgramGen may give two imports of one file the same `as` name: make them distinct"""
+    for f in main.all_files():
+        seen = {d.name for d in f.defs}
+        for i, (imp, as_name) in enumerate(f.imports):
+            vis = as_name or imp.proto
+            if vis in seen:
+                vis = f"{vis}x{i}"
+                f.imports[i] = (imp, vis)
+            seen.add(vis)
+
+
 def make_program(rng: random.Random, allow_ext: bool) -> G.Schema:
     go = G.GenOpts(max_bits=1200, big_prob=0.0, allow_ext=allow_ext, max_fields=5)
     main = G.ProgramGen(rng, G.ProgOpts(n_imports=(0, 3), gen=go)).program()
+    unique_import_names(main)
     link_consts(main)
     enrich(rng, main)
     refresh_max_bytes(rng, main)
@@ -1117,7 +1130,7 @@ class Job:
 
 
 def check(run: common.Run, drv: Any, rng: random.Random, tier: str) -> None:
-    n_prog, n_inj, chunk = (28, 8, 7) if tier == "quick" else (300, 10, 15)
+    n_prog, n_inj, chunk = (24, 8, 6) if tier == "quick" else (260, 10, 13)
     with R.Scratch("bpv-c20-") as sc, CF.ThreadPoolExecutor(16) as ex:
         cb = replay_kf(run, sc)
         run.notes["column_base_measured"] = cb.base
